@@ -24,6 +24,13 @@ Theorem C08_project_refuted : ~ C08_project_full.
 Proof. exact project_full_refuted. Qed.
 Print Assumptions C08_project_refuted.
 
+(* a union of three or more members containing None (repaired in /repo 906a805, formerly known finding
+   C08/omit-none-wide-union): nullable (K17), inside the domain of C08_project_partial, None dropped *)
+Example C08_wide_union :
+  kw_ok wide_opts = true /\ vals_ok wide_fields wide_vals = true /\ flag_defaults_ok wide_opts = true /\
+  to_dict_model wide_opts wide_fields wide_vals = Some [("w", PStr "2020-01-01")].
+Proof. exact wide_union_example. Qed.
+
 (* NaN default under omit_default (repaired in /repo 80d27b9, formerly known finding
    C08/omit-default-nan-isnan): None and non-numbers are kept, only a float NaN is dropped; this
    instance is inside the domain of C08_project_partial *)
@@ -64,11 +71,11 @@ Definition ex_opts : opts :=
      o_cfg := {| n_on := T; n_od := U; n_ba := F |}; o_dd := None; o_sort := true;
      o_fon := true; o_fba := false; o_fdl := true; o_fcx := false; o_kon := Some true; o_kba := None |}.
 Definition ex_fields : list fplan :=
-  [ {| p_name := "z"; p_alias := Some "Z"; p_tynull := false; p_trivial := false; p_default := DNo; p_omit := false |};
-    {| p_name := "n"; p_alias := None; p_tynull := true; p_trivial := false; p_default := DVal (PInt 3); p_omit := false |};
-    {| p_name := "d"; p_alias := Some "D"; p_tynull := false; p_trivial := true; p_default := DVal (PInt 1); p_omit := false |};
-    {| p_name := "h"; p_alias := None; p_tynull := false; p_trivial := true; p_default := DNo; p_omit := true |};
-    {| p_name := "a"; p_alias := Some "A"; p_tynull := true; p_trivial := true; p_default := DVal PNone; p_omit := false |} ].
+  [ {| p_name := "z"; p_alias := Some "Z"; p_ty := TyPlain; p_trivial := false; p_default := DNo; p_omit := false |};
+    {| p_name := "n"; p_alias := None; p_ty := TyOptional; p_trivial := false; p_default := DVal (PInt 3); p_omit := false |};
+    {| p_name := "d"; p_alias := Some "D"; p_ty := TyPlain; p_trivial := true; p_default := DVal (PInt 1); p_omit := false |};
+    {| p_name := "h"; p_alias := None; p_ty := TyPlain; p_trivial := true; p_default := DNo; p_omit := true |};
+    {| p_name := "a"; p_alias := Some "A"; p_ty := TyOptional; p_trivial := true; p_default := DVal PNone; p_omit := false |} ].
 Definition ex_vals : list fval :=
   [ (POpq 1, PStr "2020-01-01"); (PNone, PNone); (PBool true, PBool true); (PInt 7, PInt 7); (PInt 5, PInt 5) ].
 
